@@ -341,8 +341,9 @@ func (d *msgDialer) SetOption(string, interface{}) error       { return mangos.E
 func (d *msgDialer) GetOption(string) (interface{}, error) { return nil, mangos.ErrBadOption }
 
 type msgListener struct {
-	mn   *MsgNet
-	addr string
+	mn    *MsgNet
+	addr  string
+	owner bool // this listener is the one bound to the endpoint
 }
 
 func (l *msgListener) Listen() error {
@@ -356,6 +357,7 @@ func (l *msgListener) Listen() error {
 		return mangos.ErrAddrInUse
 	}
 	e.listening = true
+	l.owner = true
 	return nil
 }
 
@@ -363,6 +365,9 @@ func (l *msgListener) Accept() (transport.Pipe, error) {
 	mn := l.mn
 	mn.mu.Lock()
 	defer mn.mu.Unlock()
+	if !l.owner {
+		return nil, mangos.ErrClosed
+	}
 	e := mn.ep(l.addr)
 	for len(e.acceptQ) == 0 && !e.lclosed && e.listening {
 		mn.cv.Wait()
@@ -378,6 +383,11 @@ func (l *msgListener) Accept() (transport.Pipe, error) {
 func (l *msgListener) Close() error {
 	mn := l.mn
 	mn.mu.Lock()
+	if !l.owner {
+		// never bound (Listen failed or was not called): nothing to release
+		mn.mu.Unlock()
+		return nil
+	}
 	e := mn.ep(l.addr)
 	e.lclosed = true
 	e.listening = false
